@@ -417,7 +417,13 @@ func (r *Runtime) createHttpRequest(operation *runtime.ClientOperation) (*reques
 		return nil, nil, fmt.Errorf("none of producers: %v registered. try %s", r.Producers, cmt)
 	}
 
-	req, err := request.buildHTTP(cmt, r.BasePath, r.Producers, r.Formats, auth)
+	// New roots the base path; a base path assigned to the field afterwards gets the same treatment
+	basePath := r.BasePath
+	if !strings.HasPrefix(basePath, "/") {
+		basePath = "/" + basePath
+	}
+
+	req, err := request.buildHTTP(cmt, basePath, r.Producers, r.Formats, auth)
 	if err != nil {
 		return nil, nil, err
 	}
